@@ -16,6 +16,18 @@ def _c10_chunk(job):
         ref = T.read(s, REPO)
         if ref[0] == "accept":
             out["accepted"] += 1
+            if r is None:
+                # the caller owns the returned graph: scribble on it, parse again, must still be the denoted graph
+                try:
+                    from tucan.parser.parser import graph_from_tucan
+                    from .c14_workload import scribble
+
+                    scribble(graph_from_tucan(s))
+                    r = T.compare(s, REPO)
+                    if r is not None:
+                        r = "after the caller modified an earlier result for the same string: " + r
+                except Exception as ex:  # noqa
+                    r = f"second parse raised {type(ex).__name__}"
         if "/" in s:
             out["past_formula"] += 1
         if r is not None:
@@ -28,6 +40,8 @@ def _vio_key(s, msg):
         return "C10|token:digits>4300"
     if "unrelated error" in msg or "crashes" in msg:
         return "C10|crash|" + msg.split(":")[0][-40:]
+    if msg.startswith("after the caller modified"):
+        return "C10|aliased-result"
     if msg.startswith("reference says accept"):
         return "C10|valid-rejected"
     if msg.startswith("reference says reject"):
